@@ -204,15 +204,6 @@ LOGMATMULEXP_REF = (
     "    y_shift = jax.lax.stop_gradient(jnp.amax(y, -2, keepdims=True))\n"
     "    return jnp.log(jnp.matmul(jnp.exp(x - x_shift), jnp.exp(y - y_shift))) + x_shift + y_shift\n")
 
-ACT3D_REF = (
-    "def _activation_and_log_jacobian_3d(self, x):\n"
-    "    x, log_abs_grads = eqx.filter_vmap(self.activation.transform_and_log_det)(x)\n"
-    "    log_det_3d = jnp.full((self.shape[0], self.block_dim, self.block_dim), -jnp.inf)\n"
-    "    diag_idxs = jnp.arange(self.block_dim)\n"
-    "    log_det_3d = log_det_3d.at[:, diag_idxs, diag_idxs].set(log_abs_grads.reshape(self.shape[0], self.block_dim))\n"
-    "    return x, log_det_3d\n")
-
-
 def rule_logspace(prog, rep):
     rep.rule("C18.logspace", "BNAF log-space accumulation: logmatmulexp shifts by the row/column maxima under "
                              "stop_gradient; the activation log-Jacobian is -inf off the diagonal with every diagonal "
@@ -225,10 +216,24 @@ def rule_logspace(prog, rep):
     want = eval_ref_function(prog, m, LOGMATMULEXP_REF, [XX, YY])
     compare(rep, "C18.logspace", f"{m.relpath}:{fn.lineno}", "logmatmulexp", got, want, "logmatmulexp")
     c = prog.cls(B + "BlockAutoregressiveNetwork")
-    got = Interp(prog).eval_method(c, "_activation_and_log_jacobian_3d", [XX])
-    want = eval_ref_method(prog, c, ACT3D_REF, [XX])
-    compare(rep, "C18.logspace", method_site(prog, c, "_activation_and_log_jacobian_3d"),
-            "BlockAutoregressiveNetwork._activation_and_log_jacobian_3d", got, want, "activation log-Jacobian")
+    # the activation factor of the log-det product, found through the unrolled method (no helper name assumed)
+    from .bnaf import factors
+    from .bij import COND as _COND, X as _X
+    it1 = Interp(prog, no_inline={B + "logmatmulexp"})
+    it1.self_fields = {"layers": ("list", tuple(("tuple", (("sym", f"L{i}"), ("sym", f"J{i}"))) for i in range(2)))}
+    t1 = it1.eval_method(c, "transform_and_log_det", [_X, _COND])
+    site1 = method_site(prog, c, "transform_and_log_det")
+    k1 = "BlockAutoregressiveNetwork:activation-log-Jacobian-factor"
+    fs = None
+    if t1[0] == "tuple" and len(t1[1]) == 2 and t1[1][1][0] == "call" and t1[1][1][1] == ("ext", "jax.numpy.sum"):
+        fs = factors(dict(t1[1][1][3]).get("a"))
+    if fs is None:
+        rep.undecided("C18.logspace", site1, k1, f"log-det of the depth-1 network is not a recognised log-space product: "
+                                                 f"{show(t1, 200)}")
+    else:
+        rep.check(any(f[0] == "diag" for f in fs), "C18.logspace", site1, k1,
+                  "the activation enters as an exact diagonal factor (-inf off the diagonal with every diagonal entry "
+                  "set, or a row/column shift)", f"no diagonal activation factor among {[f[0] for f in fs]}")
     # linear_to_log_block_diagonal: log of the entries selected by block_diag_mask only
     m, fn = prog.func(B + "block_autoregressive_linear")
     it = Interp(prog, no_inline={"flowjax.masks.block_diag_mask", "flowjax.masks.block_tril_mask"})
